@@ -29,7 +29,9 @@ C03M = 'Bashlex.Props.C03'
 T_C03 = [('Bashlex.C03.' + t, C03M) for t in ['C03_partial', 'C03_partial_single', 'strict_known', 'strict_resolve', 'spans_hooks', 'parserRun_spans', 'wordContract']] + [('Bashlex.LR.run_sound_ord', C03M)]
 C03T = 'Bashlex.Props.C03Total'
 T_C03 += [('Bashlex.C03.' + t, C03T) for t in ['tokSpans', 'sat_nextToken_w', 'C03_total_conditional', 'C03_total_single_conditional']]
+T_C03 += [('Bashlex.C03.' + t, 'Bashlex.Props.C03.RootEnds') for t in ['C03_total_checked', 'C03_total_single_checked', 'parserRunK_plain', 'parserRunK_spans', 'parseK_sound', 'rootEndOK_noNLNL', 'rootEndsChecked_of_rootEnds']]
 reg('C03', 'propchecks.treespec', 'proof', T_C03 + T1, [ASCII, DEPTH, CORR,
+    'C03_total_checked (NO hypothesis): the same conclusion under the decidable per-input condition rootEndsChecked s o (an instrumented parse, proved equal to parse, that checks the root of every nested run; it cannot fire when the text has no two adjacent newlines - rootEndOK_noNLNL - and held on all 8.3 million generated parser runs of the sub-task; RootEnds implies it). ' +
     'C03_total_conditional: for every input and all options every violated clause of Spec.spansWF on every node of every returned tree is one of the recorded defects (C03_known: +heredoc, +emptydesc, empty-span:reservedword), '
     'with ONE hypothesis left: RootEnds (the root of a nested parser run does not end in two newlines unless ")" follows - a text-level fact needed for the trailing-newline trim of _parsedolparen). The token-source hypothesis is '
     'DISCHARGED for the real tokenizer (tokSpans: positioned, non-empty, ordered tokens starting inside the input; redirect cells extended over a here-document only at the frontier; closure under the parser and nested parsers)'])
@@ -49,8 +51,9 @@ T_C05 = [('Bashlex.C05.' + t, C05M) for t in ['C05_partial', 'C05_partial_parts'
         [('Bashlex.LR.run_sound_ordH', C05M)] + [('Bashlex.C05.' + t, C05G) for t in ['token_in_leaf', 'leaf_starts_at_token', 'TokLog.sorted', 'C05_tokens_in_leaves']]
 C05T = 'Bashlex.Props.C05Total'
 T_C05 += [('Bashlex.C05.' + t, C05T) for t in ['tokLog', 'C05_total_conditional', 'C05_total_single_conditional', 'C05_total_tokens_in_leaves']]
+T_C05 += [('Bashlex.C05.' + t, 'Bashlex.Props.C05Checked') for t in ['C05_total_checked', 'C05_total_tokens_in_leaves_checked', 'parserRunK_leaves']]
 reg('C05', 'propchecks.treespec', 'proof', T_C05 + T1, [ASCII, DEPTH, CORR,
-    'C05_total_conditional (token level), with RootEnds as the only hypothesis left (the token-source hypothesis is discharged: tokLog): one part per parser run, in order; the leaves of each part are exactly the delivered tokens, grouped '
+    'C05_total_checked (NO hypothesis, decidable per-input condition rootEndsChecked as in C03). C05_total_conditional (token level), with RootEnds as the only hypothesis left (the token-source hypothesis is discharged: tokLog): one part per parser run, in order; the leaves of each part are exactly the delivered tokens, grouped '
     '([fd] op target = one redirect leaf, here-document bodies attached), no token duplicated, and the only tokens without a leaf are NEWLINEs in five listed grammar positions (kernel-checked witnesses); D19 is characterised exactly and '
     'excluded by a decidable predicate. NOT proved: the character-level half (text outside leaf spans is layout: TokGaps) and the link to the executable Spec.coverOK (its qsort cannot be evaluated in the kernel); both are decided per input'])
 C12M = 'Bashlex.Props.C12'
@@ -75,7 +78,9 @@ reg('C14', 'propchecks.relprops', 'proof', T_C14 + T1[:1], [ASCII, DEPTH, CORR,
     'blank prefix and the core of C14; layout edits BETWEEN tokens (the general statement), comments in the prefix and proceedonerror = true are decided per input by the relation'])
 C16M = 'Bashlex.Props.C16'
 T_C16 = [('Bashlex.C16.' + t, C16M) for t in ['C16_partial', 'C16_partial_conditional', 'frameHyp', 'parseI_sound', 'parseI_limit', 'parserRunI_rel', 'rel_action', 'rel_run', 'rel_expandwordWith']]
+T_C16 += [('Bashlex.C16.' + t, 'Bashlex.Props.C16.Stable') for t in ['C16_total_checked', 'heredocStable_checked', 'heredocStable_of_spans', "C16_partial'", 'nextIndex_prune', 'parse_wend']]
 reg('C16', 'propchecks.relprops', 'proof', T_C16 + T1[:1], [ASCII, DEPTH, CORR,
+    'C16_total_checked: heredocStable is now DERIVED from the span theorem (every node below a word ends inside the word - parse_wend, unconditional - and the outermost word ends before the part or before a surviving here-document body); the remaining conditions are decidable and per input: flagsNeutral, noD19 (no constant-span time node: a limit of the span proof, not a defect) and rootEndsChecked. ' +
     'C16_partial holds under two decidable per-input conditions: flagsNeutral k s o (no nested parse that the limited run skips changes the parser-state flags it shares with its caller - copy.copy(parserstate) is '
     'shallow; when it fails the known divergences go the allowed way: the limited parse accepts what the unlimited one rejects) and heredocStable k parts (pruning does not move the restart index of parse())'])
 reg('C17', 'propchecks.relprops', 'proof', [('Bashlex.C13.' + t, C13M) for t in ['parsesingle_eq_head', 'parsesingle_exn_iff', 'parse_exn_of_parsesingle_exn', 'parsesingle_of_parse_exn']] + T6 + [('Bashlex.parse_strict_irrelevant', QC), ('Bashlex.parse_proceed_irrelevant', QC),
